@@ -799,6 +799,7 @@ inductive Op
   | pong (pl : Bytes)
   | close (code : Option Nat) (reason : Option Bytes)
   | hsDone
+  | hsThenFeed (d : Bytes)   -- the read that completes the opening handshake also carries the first frame octets
 deriving Repr
 
 /-- the reactor runs timers that are already due (zero-delay `call_later`) before the next input -/
@@ -819,6 +820,7 @@ def stepCore (s : S) : Op → S
   | .pong pl => sendPong s pl
   | .close c r => sendClose s c r
   | .hsDone => handshakeDone s
+  | .hsThenFeed d => dataReceived (handshakeDone s) d
 
 def step (s : S) (op : Op) : S := pump (stepCore s op)
 
